@@ -23,12 +23,12 @@ var verifUnobservable = map[string]string{
 	"csvOutput":        "scratch writer, reset before use",
 	"nativeFuncs":      "documented as fixed for the lifetime of the interpreter",
 	"program":          "constant", "functions": "constant", "nums": "constant", "strs": "constant", "regexes": "constant",
-	"scalarIndexes":    "constant", "arrayIndexes": "constant",
-	"random":           "generator object; its seed field randSeed is compared (ResetRand re-seeds it)",
-	"reparseCSV":       "at the start of a run the record is empty, so the re-parse it triggers yields the empty field list",
-	"output":           "set from the configuration", "errorOutput": "set from the configuration", "stdin": "set from the configuration",
-	"openFile":         "set from the configuration",
-	"ctx":              "set by ExecuteContext, ignored by Execute (checkCtx is compared)", "ctxDone": "as ctx", "ctxOps": "as ctx",
+	"scalarIndexes": "constant", "arrayIndexes": "constant",
+	"random":     "generator object; its seed field randSeed is compared (ResetRand re-seeds it)",
+	"reparseCSV": "at the start of a run the record is empty, so the re-parse it triggers yields the empty field list",
+	"output":     "set from the configuration", "errorOutput": "set from the configuration", "stdin": "set from the configuration",
+	"openFile": "set from the configuration",
+	"ctx":      "set by ExecuteContext, ignored by Execute (checkCtx is compared)", "ctxDone": "as ctx", "ctxOps": "as ctx",
 }
 
 func verifReuseConfig() *Config {
